@@ -589,6 +589,12 @@ void World::record_tx(VSock &s, const Bytes &msg)
   t.id     = (int)txs.size();
   t.fd     = s.fd;
   t.sock_serial = s.created_seq;
+  // which request this transmission belongs to: the one whose entry point is running, else that of an earlier
+  // transmission of the same query id (re-sends), else unknown (-1: e.g. a later search candidate)
+  t.token_hint = issuing_tok;
+  if (t.token_hint < 0 && t.q.ok)
+    for (auto &o : txs)
+      if (o.q.ok && o.q.id == t.q.id && o.token_hint >= 0) t.token_hint = o.token_hint;
   t.rot_draws   = rot_draws;
   t.rot_last    = rot_last;
   t.server = s.server;
@@ -1140,6 +1146,8 @@ int World::issue(int reqidx, bool from_cb)
   log(fmt("req tok=%d kind=%d name=%s type=%d%s", t.id, r.kind, r.name.c_str(), r.qtype, from_cb ? " (from callback)" : ""));
   bool was_in = in_lib;
   in_lib      = true;
+  int prev_issuing = issuing_tok;
+  issuing_tok      = t.id;
   switch (r.kind) {
     case 0:
     case 4: {
@@ -1245,6 +1253,7 @@ int World::issue(int reqidx, bool from_cb)
       break;
     }
   }
+  issuing_tok = prev_issuing;
   in_lib = was_in;
   toks[(size_t)c->tok].accepted = true;
   if (toks[(size_t)c->tok].count > 0 && toks[(size_t)c->tok].t_done == toks[(size_t)c->tok].t_issue && (int)txs.size() == toks[(size_t)c->tok].tx_at_issue)
